@@ -1,4 +1,6 @@
 import Ufw.Props.C13
+import Ufw.Tie.Misc
+import Ufw.Tie.Varint
 #print axioms Ufw.Props.C13.kind_table_spec
 #print axioms Ufw.Props.C13.encode_prefix_spec
 #print axioms Ufw.Props.C13.prefixSpec_ne_nil
@@ -12,3 +14,8 @@ import Ufw.Props.C13
 #print axioms Ufw.Props.C13.memory_from_source_spec
 #print axioms Ufw.Props.C13.buffer_from_source_spec
 #print axioms Ufw.Props.C13.stream_order
+#print axioms Ufw.Tie.Misc.const_ssize_max
+#print axioms Ufw.Tie.Misc.const_crc_initial
+#print axioms Ufw.Tie.Misc.const_lenp_kinds
+#print axioms Ufw.Tie.Varint.const_model
+#print axioms Ufw.Tie.Varint.const_leb128
